@@ -781,7 +781,7 @@ pub fn run_c10(cfg: &Cfg, rep: &mut Report) {
             for (reg, kind, _) in KINDS.iter().copied() {
                 let is14 = kind == 1;
                 for &n in &nums {
-                    for &v in &nums {
+                    for &v in nums.iter().take(if c == 0 || c == 9 || c == 15 { 88 } else { 12 }) {
                         if is14 || v <= 127 {
                             let m = PnM { ch: c, number: n, value: v, registered: reg, is14, dt: [0u8, 0, 1, 2][kind as usize] };
                             let evs = crate_encoding(&m, is14, rep);
